@@ -1,6 +1,6 @@
 (* C14 (set half) — property theorems.  Only statements, [exact lemma] and Print Assumptions. *)
 From Coq Require Import NArith List Bool Sorting.Sorted.
-From FV Require Import C14.Model C14.Proofs C14.SetObs C14.SetAfter C14.SetDom C14.SetRangeU C14.SetEq C14.SetOrd C14.SetL0 C14.SetL0Proofs.
+From FV Require Import C14.Model C14.Proofs C14.SetObs C14.SetAfter C14.SetDom C14.SetRangeU C14.SetEq C14.SetOrd C14.SetL0 C14.SetL0Proofs C14.ProcessNP.
 Import ListNotations.
 Open Scope N_scope.
 
@@ -180,6 +180,50 @@ Theorem c14_process_L0_subtract : forall a b la lb, Inv0 a -> Inv0 b ->
   abs0 (process0 N.ldiff a b) = pgs (bs_subtract (mkBS (abs0 a) la) (mkBS (abs0 b) lb)).
 Proof. exact process0_subtract_refines. Qed.
 
+(* Round 7 (ProcessNP.v): the `!passthrough_left` half (intersect, reversed_subtract), UNBOUNDED, and Inv0 of the result.
+   [keep A B]: the entries of A whose key occurs in B (the pages step 1 keeps when the left side does not pass through). *)
+(* (iii) the left pages without a partner on the right are irrelevant to the merge when the left side does not pass through *)
+Theorem c14_merge_keep_irrelevant : forall pr f (A B : list (N * N)), ksorted A ->
+  merge false pr f (keep A B) B = merge false pr f A B.
+Proof. exact merge_keep_irrelevant. Qed.
+(* (i) step 1 (size estimate + front compaction of page_map): the first write_idx slots hold exactly keep A0 B0, in order,
+   page_map keeps its length, and the estimated count is the exact size of the L1 merge *)
+Theorem c14_step1_compacts_front : forall pr f PA A0 PB B0,
+  let r := step1 (length A0 + length B0) false pr B0 (length A0) (length B0) A0 0 0 0 0 in
+  length (fst (fst (fst (fst r)))) = length A0 /\ (snd r <= length A0)%nat /\
+  firstn (snd r) (fst (fst (fst (fst r)))) = keep A0 B0 /\
+  (snd (fst r) + (if pr then length B0 - snd (fst (fst r)) else 0))%nat = length (merge false pr f (absE PA A0) (absE PB B0)).
+Proof. exact step1_compacts_front. Qed.
+(* (ii) compact(new_len) (old_index_to_page_map_index + compact_pages, in place): for a front of n page_map entries with
+   distinct in-range page indices, lengths are kept, the abstraction of the front is unchanged, and the new page indices
+   are pairwise distinct and all < n (a permutation of 0..n) *)
+Theorem c14_compact_renumbers : forall (P0 : list N) (pm0 : list pinfo) (n : nat), (n <= length pm0)%nat ->
+  NoDup (map snd (firstn n pm0)) -> Forall (fun j => (j < length P0)%nat) (map snd (firstn n pm0)) ->
+  let r := compact n P0 pm0 in
+  length (fst r) = length P0 /\ length (snd r) = length pm0 /\
+  absE (fst r) (firstn n (snd r)) = absE P0 (firstn n pm0) /\
+  NoDup (map snd (firstn n (snd r))) /\ Forall (fun j => (j < n)%nat) (map snd (firstn n (snd r))).
+Proof. exact compact_spec. Qed.
+(* steps 3-4 end with the loop invariant still holding and count = 0 (every output slot written exactly once) *)
+Theorem c14_process_L0_steps34_final : forall pl pr f PB B0 n, ksorted (absE PB B0) -> forall s,
+  WF pl pr f PB B0 n s ->
+  WF pl pr f PB B0 n (run34 pl pr f PB B0 s) /\ s_count (run34 pl pr f PB B0 s) = 0%nat.
+Proof. exact run34_final. Qed.
+(* process_L0_refines_L1, FULL: for EVERY operator f (all four passthrough combinations) and all well-formed L0 states,
+   the in-place process (steps 1-4, compact, resizes) abstracts to Model.process (the L1 merge the shards evaluate) *)
+Theorem c14_process_L0_refines_L1 : forall f a b la lb, Inv0 a -> Inv0 b ->
+  abs0 (process0 f a b) = pgs (process f (mkBS (abs0 a) la) (mkBS (abs0 b) lb)).
+Proof. exact process0_refines_process. Qed.
+Theorem c14_process_L0_intersect : forall a b la lb, Inv0 a -> Inv0 b ->
+  abs0 (process0 N.land a b) = pgs (bs_intersect (mkBS (abs0 a) la) (mkBS (abs0 b) lb)).
+Proof. exact process0_intersect_refines. Qed.
+Theorem c14_process_L0_reversed_subtract : forall a b la lb, Inv0 a -> Inv0 b ->
+  abs0 (process0 (fun x y => N.ldiff y x) a b) = pgs (bs_reversed_subtract (mkBS (abs0 a) la) (mkBS (abs0 b) lb)).
+Proof. exact process0_reversed_subtract_refines. Qed.
+(* the representation invariant is preserved: |page_map| = |pages|, page indices distinct and in range, majors ascending *)
+Theorem c14_process_L0_preserves_inv : forall f a b, Inv0 a -> Inv0 b -> Inv0 (process0 f a b).
+Proof. exact process0_preserves_inv0. Qed.
+
 (* ---- RangeSet, UNBOUNDED (SetRangeU.v).  [canon l]: sorted by start, every range non-empty, every later range
    starts beyond end + 1 of every earlier one (disjoint and non-adjacent); [cov l v]: v lies in some range of l
    (for a list of inserted ranges: in some well-formed one; reversed ranges cover nothing and are ignored). ---- *)
@@ -230,3 +274,11 @@ Print Assumptions c14_process_L0_steps34.
 Print Assumptions c14_process_L0_refines_L1_partial.
 Print Assumptions c14_process_L0_union.
 Print Assumptions c14_process_L0_subtract.
+Print Assumptions c14_merge_keep_irrelevant.
+Print Assumptions c14_step1_compacts_front.
+Print Assumptions c14_compact_renumbers.
+Print Assumptions c14_process_L0_steps34_final.
+Print Assumptions c14_process_L0_refines_L1.
+Print Assumptions c14_process_L0_intersect.
+Print Assumptions c14_process_L0_reversed_subtract.
+Print Assumptions c14_process_L0_preserves_inv.
